@@ -8,7 +8,8 @@ WB = M + "WebsocketBuffer"
 HK = M + "Handshake"
 
 # ------------------------------------------------------------------------------ WebsocketBuffer
-cls(WB, fields={"value": "opt obj io:IOBuf", "length": "int", "max_length": "int"},
+# private to the reader task (only WSStream._handle_events reaches it): never changed by others
+cls(WB, fields={"value": "opt obj io:IOBuf", "length": "int", "max_length": "int"}, immutable=["value", "length", "max_length"],
     inv=[("WebsocketBuffer.inv.length", "self.length >= 0", "C10"),
          # the accumulated size is the size of what has been written
          ("WebsocketBuffer.inv.size", "implies(self.value is not None, self.length == len(self.value.content)) and implies(self.value is None, self.length == 0)", "C10")])
@@ -20,8 +21,11 @@ fn(WB + ".extend", params={"event": "obj wsproto.events:TextMessage | obj wsprot
    requires=[("extend.pre.same-type", "implies(self.value is not None, isinstance(self.value, StringIO) == isinstance(event, TextMessage))")],
    ensures=[("C10.buffer.extend", "self.length == old(self.length) + len(event.data) and self.length <= self.max_length and self.value is not None", "C10"),
             ("C10.buffer.type", "isinstance(self.value, StringIO) == (isinstance(event, TextMessage) if old(self.value) is None else isinstance(old(self.value), StringIO))", "C10")],
+   # the buffer stays over the limit after the error: every later fragment is refused as well, so
+   # nothing of this or a later message can be delivered (C10)
    raises={"FrameTooLargeError": {"when": "self.length + len(event.data) > self.max_length",
-                                  "ensures": [("C10.buffer.too-large", "old(self.length) + len(event.data) > self.max_length", "C10")]}},
+                                  "ensures": [("C10.buffer.too-large", "old(self.length) + len(event.data) > self.max_length", "C10"),
+                                              ("C10.buffer.stays-too-large", "self.length > self.max_length", "C10")]}},
    modifies=["self.value", "self.length"], effect="atomic", props=("C10",),
    ghost_on_raise={"FrameTooLargeError": ["caller_set('g_too_big', True)"]})
 
@@ -29,7 +33,7 @@ fn(WB + ".clear", params={}, ensures=[("C10.buffer.clear", "self.value is None a
    modifies=["self.value", "self.length"], effect="atomic", props=("C10",))
 
 
-fn(WB + ".to_message", params={}, modifies=[], effect="atomic", returns=None,
+fn(WB + ".to_message", params={}, modifies=[], effect="atomic", returns="dict{type:const 'websocket.receive';bytes:opt bytes;text:opt text}",
    requires=[("to_message.pre", "self.value is not None")],
    ensures=[("C10.buffer.message", "result['type'] == 'websocket.receive' and (result['bytes'] is None) == isinstance(self.value, StringIO) and (result['text'] is None) == isinstance(self.value, BytesIO) "
              "and implies(isinstance(self.value, BytesIO), result['bytes'] == self.value.content) and implies(isinstance(self.value, StringIO), result['text'] == self.value.content)", "C10")],
@@ -105,9 +109,8 @@ cls(
         ("WSStream.inv.started", "implies(self.g_app_started, has(self, 'scope') and has(self, 'start_time') and has(self, 'handshake'))", "C04"),
         ("WSStream.inv.spawn-once", "self.g_spawned == (1 if self.g_app_started else 0)", "C11"),
         ("WSStream.inv.connected", "implies(self.state == ASGIWebsocketState.CONNECTED, has(self, 'connection') and self.g_app_started and value_of(self, 'handshake').accepted)", "C10"),
-        # the buffer holds exactly the message wsproto has in progress (same type), else nothing
-        ("WSStream.inv.buffer", "implies(has(self, 'connection'), (self.buffer.value is None) == (value_of(self, 'connection').cur_type == 0) "
-         "and implies(self.buffer.value is not None, isinstance(self.buffer.value, StringIO) == (value_of(self, 'connection').cur_type == 1)))", "C10,C04"),
+        # once a message was too big the buffer stays over the limit (so nothing more is delivered)
+        ("C10.too-big-sticks", "implies(self.g_too_big, self.buffer.length > self.buffer.max_length)", "C10"),
         ("WSStream.inv.accepted-started", "implies(has(self, 'handshake') and value_of(self, 'handshake').accepted, self.g_app_started)", "C11"),
         ("WSStream.inv.accepted", "implies(has(self, 'handshake') and value_of(self, 'handshake').accepted, has(self, 'connection'))", "C04"),
     ],
@@ -123,7 +126,12 @@ cls(
                    ("WSStream.rely[reader].receive-side", "self.g_too_big == old(self.g_too_big) and self.g_remote_closed == old(self.g_remote_closed) and self.g_remote_code == old(self.g_remote_code)", "C10")],
         "app": [("WSStream.rely[app].automaton", "implies(old(self.g_app_started), self.state == old(self.state) and self.g_n_final == old(self.g_n_final))", "C11")],
     },
-    task_inv={"app": [("WSStream.qinv.handshake", "implies(self.state == ASGIWebsocketState.HANDSHAKE and not self.g_finished, self.g_n_final == 0 and self.g_n_end == 0)", "C11,C12"),
+    task_inv={"reader": [
+        # the buffer holds exactly the message wsproto has in progress (same type), else nothing;
+        # only the reader touches either, so this holds whenever the reader is between two calls
+        ("WSStream.inv.buffer", "implies(has(self, 'connection'), (self.buffer.value is None) == (value_of(self, 'connection').cur_type == 0) "
+         "and implies(self.buffer.value is not None, isinstance(self.buffer.value, StringIO) == (value_of(self, 'connection').cur_type == 1)))", "C10,C04")],
+              "app": [("WSStream.qinv.handshake", "implies(self.state == ASGIWebsocketState.HANDSHAKE and not self.g_finished, self.g_n_final == 0 and self.g_n_end == 0)", "C11,C12"),
                       ("WSStream.qinv.answered", "implies(self.state in (ASGIWebsocketState.CONNECTED, ASGIWebsocketState.RESPONSE, ASGIWebsocketState.HTTPCLOSED), self.g_n_final == 1)", "C11,C12")]},
     task_stable={"app": ["response", "scope", "start_time", "handshake"], "reader": ["buffer", "scope", "start_time", "handshake", "connection"]},
     published_inv=[("WSStream.published.requested", "has(self, 'scope') and has(self, 'start_time') and has(self, 'handshake')", "C04")],
@@ -163,7 +171,9 @@ fn(WS + ".handle",
 
 # inlined at its call site; this entry only carries the loop invariant
 fn(WS + "._handle_events", params={}, inline=True, task="reader",
-   loops={0: {"invariant": [("ws.events.loop", "has(self, 'connection') and has(self, 'scope') and has(self, 'start_time') and has(self, 'handshake') and self.g_app_started and value_of(self, 'handshake').accepted")]}},
+   loops={0: {"invariant": [("ws.events.loop", "has(self, 'connection') and has(self, 'scope') and has(self, 'start_time') and has(self, 'handshake') and self.g_app_started and value_of(self, 'handshake').accepted"),
+       ("ws.events.loop.buffer", "(self.buffer.value is None) == (value_of(self, 'connection').cur_type == 0) "
+        "and implies(self.buffer.value is not None, isinstance(self.buffer.value, StringIO) == (value_of(self, 'connection').cur_type == 1))", "C10,C04")]}},
    props=("C10",))
 
 fn(WS + ".app_send", params={"message": "none | msg(headers:short)"}, task="app", exceptional="app",
